@@ -81,6 +81,7 @@ class Env:
         if state is not None:
             h.setattr(self.at, "_state", h.member(self.States, state))
         self.process_calls = []
+        self.at_process = []  # (initialised flag, state, heartbeat starts) when a model update begins
         # record the state visible at each send (the state must be assigned before the request goes out)
         self.w.site_checks.append(self._on_event)
 
@@ -101,15 +102,21 @@ class Env:
             self._stub(name, is_async)
 
     def _stub(self, name, is_async):
+        def snap():
+            ev = self.h.attr(self.at, "_initialised_event")
+            self.at_process.append((getattr(ev, "flag", None), self.state(), len(self.w.events("heartbeat.start"))))
+
         def hook(it, fn, args, kwargs):
             rec = (name, list(args[1:]))
             if not is_async:
                 self.process_calls.append(rec)
+                snap()
                 self.w.event("process", name)
                 return None
 
             def run(it2):
                 self.process_calls.append(rec)
+                snap()
                 self.w.event("process", name)
                 aio.suspend(it2, ("process", name))
             return aio.Awaitable(name, run)
@@ -251,6 +258,9 @@ def _message_received(h, g):
     tasks = [e[1].coro.func.name for e in E.w.events("create_task") if isinstance(e[1].coro, Coroutine)]
     if done:
         h.oblige("completing the last step starts the heartbeat and marks the object initialised", And(started == 1, h.eq(init_ev.flag, True)))
+        h.oblige("...only after the model update of that last frame: init() must not return (nor the heartbeat run) while "
+                 "zones still show constructor defaults",
+                 And(len(E.at_process) == (1 if proc else 0), *[And(h.eq(f, False), st != "CONNECTED", n == 0) for f, st, n in E.at_process]))
         h.oblige("AT4 also starts the group-status poll task (AT5 has none)", tasks == (["_group_status_request_loop"] if g == 4 else []))
     else:
         h.oblige("nothing else starts the heartbeat, creates tasks or marks initialisation", And(started == 0, h.eq(init_ev.flag, False), tasks == []))
